@@ -122,6 +122,146 @@ class ClassInfo(object):
         return '<class %s>' % self.qual
 
 
+def _own_scope_nodes(fn):
+    """nodes of the function's own scope (nested function / class bodies excluded, their decorators and defaults included)"""
+    todo = list(fn.body)
+    while todo:
+        n = todo.pop()
+        yield n
+        if isinstance(n, (ast.FunctionDef, ast.AsyncFunctionDef, ast.Lambda, ast.ClassDef)):
+            if not isinstance(n, ast.Lambda):
+                todo.extend(n.decorator_list)
+            if not isinstance(n, ast.ClassDef):
+                todo.extend(n.args.defaults)
+                todo.extend(d for d in n.args.kw_defaults if d is not None)
+            continue
+        todo.extend(ast.iter_child_nodes(n))
+
+
+def _local_bindings(fn):
+    """names the function binds in its own scope without a nonlocal/global declaration, and the names it declares nonlocal"""
+    bound, declared = set(), set()
+    a = fn.args
+    for x in a.posonlyargs + a.args + a.kwonlyargs + [y for y in (a.vararg, a.kwarg) if y]:
+        bound.add(x.arg)
+    for n in _own_scope_nodes(fn):
+        if isinstance(n, (ast.Nonlocal, ast.Global)):
+            declared.update(n.names)
+        elif isinstance(n, ast.Name) and isinstance(n.ctx, (ast.Store, ast.Del)):
+            bound.add(n.id)
+        elif isinstance(n, (ast.FunctionDef, ast.AsyncFunctionDef, ast.ClassDef)):
+            bound.add(n.name)
+        elif isinstance(n, (ast.Import, ast.ImportFrom)):
+            for al in n.names:
+                bound.add((al.asname or al.name).split('.')[0])
+        elif isinstance(n, ast.ExceptHandler) and n.name:
+            bound.add(n.name)
+    return bound - declared, declared
+
+
+NLVEC = '__nl__'
+
+
+def desugar_nonlocal_counters(tree):
+    """Normal form for closure state.  Integer variables of an enclosing function that nested functions rebind through `nonlocal`
+    (hits/misses/loads counters) are the same thing as the elements of a list `stats = [0, 0, 0]` updated in place - the py2-compatible spelling
+    the wrappers use today.  The variables are rewritten to elements of one list `__nl__` (order of first binding), scope by scope with Python's own
+    rule: a nested function that assigns the name *without* declaring it nonlocal has a local of that name and is left alone (so a forgotten
+    declaration is still seen as what it is: an assignment to a local that changes nothing outside).  Positions are kept for reports."""
+    changed = 0
+    for outer in [n for n in ast.walk(tree) if isinstance(n, ast.FunctionDef)]:
+        nested = [n for n in _own_scope_nodes(outer) if isinstance(n, ast.FunctionDef)]
+        if not nested:
+            continue
+        names = set()
+        for f in nested:
+            for sub in [f] + [x for x in ast.walk(f) if isinstance(x, ast.FunctionDef) and x is not f]:
+                names |= _local_bindings(sub)[1]
+        if not names:
+            continue
+        # initial values: module-of-the-function-level assignments of integer constants, every target one of the names
+        inits, order, stmts = {}, [], []
+        ok = True
+        for st in outer.body:
+            if isinstance(st, ast.Assign) and all(isinstance(t, ast.Name) for t in st.targets) and any(t.id in names for t in st.targets):
+                if not all(t.id in names for t in st.targets) or not (isinstance(st.value, ast.Constant) and type(st.value.value) is int):
+                    ok = False
+                    break
+                for t in st.targets:
+                    if t.id not in inits:
+                        order.append(t.id)
+                    inits[t.id] = st.value
+                stmts.append(st)
+        # tuple form: HITS, MISSES, LOADS = 0, 0, 0
+        if ok and not stmts:
+            for st in outer.body:
+                if isinstance(st, ast.Assign) and len(st.targets) == 1 and isinstance(st.targets[0], ast.Tuple) and isinstance(st.value, ast.Tuple) \
+                        and len(st.targets[0].elts) == len(st.value.elts) and all(isinstance(t, ast.Name) and t.id in names for t in st.targets[0].elts) \
+                        and all(isinstance(v, ast.Constant) and type(v.value) is int for v in st.value.elts):
+                    for t, v in zip(st.targets[0].elts, st.value.elts):
+                        if t.id not in inits:
+                            order.append(t.id)
+                        inits[t.id] = v
+                    stmts.append(st)
+        if not ok or not stmts or set(order) != names:
+            continue      # something else than plain integer counters: left as written
+        # any other binding of the names in the outer scope itself disqualifies (the outer function would see a different variable)
+        own_bound = [n for n in _own_scope_nodes(outer) if isinstance(n, ast.Name) and isinstance(n.ctx, (ast.Store, ast.Del)) and n.id in names]
+        if len(own_bound) != sum(len(st.targets) if not isinstance(st.targets[0], ast.Tuple) else len(st.targets[0].elts) for st in stmts):
+            continue
+        index = dict((n, i) for i, n in enumerate(order))
+        first = stmts[0]
+        vec = ast.Assign(targets=[ast.Name(id=NLVEC, ctx=ast.Store())], value=ast.List(elts=[inits[n] for n in order], ctx=ast.Load()))
+        ast.copy_location(vec, first)
+        ast.fix_missing_locations(vec)
+        outer.body = [vec if st is first else st for st in outer.body if st is first or st not in stmts]
+
+        def rewrite_scope(fn, visible):
+            """visible: names of the vector that this scope sees from outside"""
+            if fn is outer:
+                vis = set(visible)
+            else:
+                local, _decl = _local_bindings(fn)
+                vis = set(n for n in visible if n not in local)
+
+            class T(ast.NodeTransformer):
+                def visit_FunctionDef(self, node):
+                    if node is fn:
+                        self.generic_visit(node)
+                        return node
+                    node.decorator_list = [self.visit(x) for x in node.decorator_list]
+                    node.args.defaults = [self.visit(x) for x in node.args.defaults]
+                    rewrite_scope(node, vis)
+                    return node
+                visit_AsyncFunctionDef = visit_FunctionDef
+
+                def visit_Lambda(self, node):
+                    shadow = set(x.arg for x in node.args.posonlyargs + node.args.args + node.args.kwonlyargs + [y for y in (node.args.vararg, node.args.kwarg) if y])
+                    if shadow & vis:
+                        return node
+                    self.generic_visit(node)
+                    return node
+
+                def visit_Nonlocal(self, node):
+                    keep = [n for n in node.names if n not in vis]
+                    if keep:
+                        node.names = keep
+                        return node
+                    return ast.copy_location(ast.Pass(), node)
+
+                def visit_Name(self, node):
+                    if node.id in vis:
+                        sub = ast.Subscript(value=ast.Name(id=NLVEC, ctx=ast.Load()), slice=ast.Constant(value=index[node.id]), ctx=node.ctx)
+                        ast.copy_location(sub, node)
+                        ast.fix_missing_locations(sub)
+                        return sub
+                    return node
+            T().visit(fn)
+        rewrite_scope(outer, set(order))
+        changed += 1
+    return changed
+
+
 class Module(object):
     def __init__(self, path, rel):
         self.path = path
@@ -135,6 +275,7 @@ class Module(object):
             self.tree = ast.parse(self.text, filename=path)
         except SyntaxError as e:
             raise AnalysisError('cannot parse %s: %s' % (rel, e))
+        self.desugared = desugar_nonlocal_counters(self.tree)
         self.classes = {}      # label -> ClassInfo  (label includes guard)
         self.classes_by_name = {}  # name -> [ClassInfo]
         self.functions = {}    # name -> FuncInfo (module level, incl. conditional arms)
